@@ -72,7 +72,7 @@ def main():
             rid = [i for i, s in enumerate(hs['structs']) if s['name'] == root][0]
             t = {'k': 'struct', 'id': rid}
             for j in range(12 if tier == 'quick' else 120):
-                cases.append(dict(id=f'{hname}:{root}:g{j}', root=root, mode='c09', vals=gen_group(g, t, rng, 4 + rng.below(3)), freeze=rng.chance(1, 2)))
+                cases.append(dict(id=f'{hname}:{root}:g{j}', root=root, mode='c09', vals=gen_group(g, t, rng, 4 + rng.below(3)), freeze=rng.chance(1, 2), written=rng.chance(1, 2)))
             if hname == 'otel':
                 for gi, fg in enumerate(float_groups(hs, root)):
                     cases.append(dict(id=f'{hname}:{root}:floats{gi}', root=root, mode='c09', vals=fg, freeze=False))
